@@ -7,7 +7,8 @@ C_Validity == [a \in C_Actions |-> CASE a = "depositSweep" -> 1200 [] a = "redem
 C_Margin == [a \in C_Actions |-> 300]
 C_StartOffset == [a \in C_Actions |-> IF a = "movingFunds" THEN 32 ELSE 0]
 C_PostKind == [a \in C_Actions |-> IF a = "heartbeat" THEN "claim" ELSE "broadcast"]
-C_BroadcastSeconds == [a \in C_Actions |-> IF a = "heartbeat" THEN 0 ELSE 960]
+C_BroadcastTimeout == [a \in C_Actions |-> IF a = "heartbeat" THEN 0 ELSE 900]
+C_CheckDelay == [a \in C_Actions |-> IF a = "heartbeat" THEN 0 ELSE 60]
 C_ClaimEndMargin == 25
 C_AttemptsLimit == 5
 C_AnnounceDelay == 1
